@@ -514,7 +514,8 @@ func checkSamples(c *Checker, sent, received, update *ssa.Function, fSentTimes, 
 				allInstrs(received, func(i2 ssa.Instruction) {
 					if d, ok := i2.(*ssa.Call); ok {
 						if b, ok := d.Call.Value.(*ssa.Builtin); ok && b.Name() == "delete" && isLoadOfField(d.Call.Args[0], fSentTimes) &&
-							newRanger(w).sameValue(d.Call.Args[1], lk.Index) && instrDominates(d, call) {
+							newRanger(w).sameValue(d.Call.Args[1], lk.Index) &&
+							(instrDominates(d, call) || !pathExistsPS(lk, call, func(x ssa.Instruction) bool { return x == ssa.Instruction(d) })) {
 							deleted = true
 						}
 					}
